@@ -1,5 +1,6 @@
 import AsherahVerif.Proofs.EnvCohNoPanic
 import AsherahVerif.Proofs.EnvCohAuth
+import AsherahVerif.Proofs.EnvCohOrig
 /-
 C07 — decrypt yields the original plaintext or an error: never other bytes, no crash.
 
@@ -103,6 +104,73 @@ theorem foreign_partition_is_error (w : World) (s : Nat) (d : Drr) (dk : DrrKey)
     (applyOp w (.decrypt s d fl)).1 = .error .wrongPartition := by
   rw [(applyOp_decrypt w s d fl).1, decrypt_foreign h hp hk]
 
+/-- what survives an out-of-band corruption of a stored row (`corruptRow`: ciphertext replaced by junk,
+or `ParentKeyMeta` dropped): the store remains a function of `(kid, created)`, no row gets the stamp
+0, every row with another key is untouched.  (The well-formedness of the hit row and cache coherence
+for entries filed under it do not survive — C01/C02 exclude `corruptRow`; nothing in C07 needs them.) -/
+theorem corrupt_row_survivors (w : World) (m : KeyMeta) (dp : Bool)
+    (hu : ∀ r, r ∈ w.store → findRow w.store ⟨r.kid, r.created⟩ = some r) (hz : ∀ r, r ∈ w.store → r.created ≠ 0) :
+    (∀ r, r ∈ (applyOp w (.corruptRow m dp)).2.store →
+        findRow (applyOp w (.corruptRow m dp)).2.store ⟨r.kid, r.created⟩ = some r) ∧
+    (∀ r, r ∈ (applyOp w (.corruptRow m dp)).2.store → r.created ≠ 0) ∧
+    (∀ r, r ∈ w.store → ¬ (r.kid = m.kid ∧ r.created = m.created) → r ∈ (applyOp w (.corruptRow m dp)).2.store) := by
+  rw [applyOp_snd]
+  exact corruptRow_survivors m dp hu hz
+
+/-! ### the payload that comes out is the one that went in -/
+
+/-- **ciphertext-integrity hypothesis**, stated explicitly: the term `c` was emitted by the history —
+it is a field of a record some operation returned, or the ciphertext of a row now in the store.
+(That an adversary cannot produce any OTHER term that opens is AES-GCM's INT-CTXT, assumed; the
+byte-level counterpart of "a term that is not a seal output is rejected" is engine `fmt`.) -/
+def EmittedTerm (outs : List Out) (store : List Row) (c : Ct) : Prop :=
+  (∃ (j : Nat) (dj : Drr), outs[j]? = some (.record dj) ∧ (dj.data = c ∨ ∃ dk, dj.key = some dk ∧ dk.enc = c)) ∨
+  (∃ r, r ∈ store ∧ r.enc = c)
+
+/-- **decrypt returns the original.**  Along ANY history from any start time — any policies, any
+fault lists, revocations, corrupted and parent-less rows (`corruptRow`) included — if a record `d`
+whose two ciphertext fields were emitted by the history decrypts to `p` (any session, any faults),
+then some earlier operation `j` was `encrypt _ p _`, it returned a record `dj`, and `d` carries
+exactly `dj`'s data AND `dj`'s encrypted key.  So the only payload that can come out is the one
+originally sealed in that record; recombining the fields of two genuine records, or pointing a
+record at another existing key, is an error (`splice_is_error`). -/
+theorem decrypt_returns_original (t : Int) (ops : List Op) (s : Nat) (d : Drr) (fl : List Fault) (p : Nat)
+    (hdec : (applyOp (runOps (World.init t) ops).2 (.decrypt s d fl)).1 = .payload p)
+    (hdata : EmittedTerm (runOps (World.init t) ops).1 (runOps (World.init t) ops).2.store d.data)
+    (hkey : ∀ dk, d.key = some dk →
+      EmittedTerm (runOps (World.init t) ops).1 (runOps (World.init t) ops).2.store dk.enc) :
+    ∃ (j s' : Nat) (fl' : List Fault) (dj : Drr), ops[j]? = some (.encrypt s' p fl') ∧
+      (runOps (World.init t) ops).1[j]? = some (.record dj) ∧
+      dj.data = d.data ∧ dj.key.map (·.enc) = d.key.map (·.enc) := by
+  have hg := runOps_ginv (GInv.init t) ops
+  rw [List.nil_append] at hg
+  have conv : ∀ c, EmittedTerm (runOps (World.init t) ops).1 (runOps (World.init t) ops).2.store c →
+      Emitted (ops.zip (runOps (World.init t) ops).1) (runOps (World.init t) ops).2.store c := by
+    intro c hc
+    rcases hc with ⟨j, dj, hj, h⟩ | h
+    · obtain ⟨op, hop⟩ := ops_getElem?_of_out hj
+      exact Or.inl ⟨op, dj, mem_zip_of_getElem? hop hj, h⟩
+    · exact Or.inr h
+  obtain ⟨op, dj, s', fl', hmem, hop, h1, h2⟩ := decrypt_original hg hdec (conv _ hdata) fun dk hk => conv _ (hkey dk hk)
+  obtain ⟨j, hj1, hj2⟩ := mem_zip_getElem? hmem
+  exact ⟨j, s', fl', dj, hop ▸ hj1, hj2, h1, h2⟩
+
+/-- the data-row keys of the records a history returns are pairwise different, hence the encrypted
+key of one record with the data of another is rejected — in the final world of ANY history. -/
+theorem splice_is_error (t : Int) (ops : List Op) (i j : Nat) (hij : i ≠ j) (di dj : Drr)
+    (hi : (runOps (World.init t) ops).1[i]? = some (.record di))
+    (hj : (runOps (World.init t) ops).1[j]? = some (.record dj)) (s : Nat) (fl : List Fault) :
+    ∃ e, (applyOp (runOps (World.init t) ops).2 (.decrypt s ⟨di.key, dj.data⟩ fl)).1 = .error e := by
+  have hg := runOps_ginv (GInv.init t) ops
+  rw [List.nil_append] at hg
+  obtain ⟨opi, hopi⟩ := ops_getElem?_of_out hi
+  obtain ⟨opj, hopj⟩ := ops_getElem?_of_out hj
+  have zi : (ops.zip (runOps (World.init t) ops).1)[i]? = some (opi, .record di) := by
+    rw [List.getElem?_zip_eq_some]; exact ⟨hopi, hi⟩
+  have zj : (ops.zip (runOps (World.init t) ops).1)[j]? = some (opj, .record dj) := by
+    rw [List.getElem?_zip_eq_some]; exact ⟨hopj, hj⟩
+  exact splice_error hg hij zi zj s fl
+
 /-! ### non-vacuity -/
 
 def demoPolicy : Policy :=
@@ -123,7 +191,22 @@ example : (applyOp demoWorld (.decrypt 0 ⟨some ⟨5, .junk 3, some ⟨.ik 7, 5
 example : (applyOp demoWorld (.decrypt 0 { demoRecord with data := .enc 9 1 (.payload 42) } [])).1 = .error .aead := by decide
 example : (applyOp demoWorld (.decrypt 0 ⟨some ⟨5, .enc 1 2 (.key 2), some ⟨.ik 8, 5⟩⟩, demoRecord.data⟩ [])).1 =
     .error .wrongPartition := by decide
-example : (applyOp (applyOp (applyOp demoWorld (.closeFactory 0)).2 (.corruptRow ⟨.ik 7, 5⟩ true)).2
-    (.decrypt 0 demoRecord [])).1 ≠ .payload 42 := by decide
+example : (runOps (World.init 5000000000)
+    (demoHistory ++ [.corruptRow ⟨.ik 7, 5⟩ true, .newFactory demoPolicy 0 0 0 0, .getSession 1 7 0 0,
+      .decrypt 1 demoRecord []])).1[6]? = some (.error .noParent) := by decide
+example : (runOps (World.init 5000000000)
+    (demoHistory ++ [.corruptRow ⟨.ik 7, 5⟩ false, .newFactory demoPolicy 0 0 0 0, .getSession 1 7 0 0,
+      .decrypt 1 demoRecord []])).1[6]? = some (.error .aead) := by decide
+
+/-- two genuine records; the hypotheses of `decrypt_returns_original` hold for the first one, and the
+splice of the two is an error. -/
+def twoRecords : List Op := demoHistory ++ [.encrypt 0 43 []]
+def secondRecord : Drr := ⟨some ⟨5, .enc 1 4 (.key 3), some ⟨.ik 7, 5⟩⟩, .enc 3 3 (.payload 43)⟩
+
+example : (runOps (World.init 5000000000) twoRecords).1[2]? = some (.record demoRecord) ∧
+    (runOps (World.init 5000000000) twoRecords).1[3]? = some (.record secondRecord) ∧
+    (applyOp (runOps (World.init 5000000000) twoRecords).2 (.decrypt 0 demoRecord [])).1 = .payload 42 ∧
+    (applyOp (runOps (World.init 5000000000) twoRecords).2 (.decrypt 0 ⟨demoRecord.key, secondRecord.data⟩ [])).1 =
+      .error .aead := by decide
 
 end AsherahVerif.Props.C07
